@@ -1,13 +1,13 @@
 /-
 Model of the concurrent quota strategy as it is reached through the streams engine.  Core Lean only.
 
-Code modelled (lunar-engine/streams), WITH the repairs F04e/F02c (landed), F02a, F02b, F02d, F02e:
+Code modelled (lunar-engine/streams), WITH the repairs F04e/F02c, F02a, F02b, F02d, F02e (landed) and F02f (fixes/F02f.patch):
 * `resources/quota/concurrent_strategy.go` — `Inc`, `Allowed`, `Dec` (walks up all ancestors, F02d),
   `generateMember`, `checkForExpiredRequests` / `validateMemberIntegrity` (the GC); the status and the member are
   written in one critical section (F02e);
 * `lunar-context/memory_state.go` — `AtomicSAddWithMaxValuesAllowed`, `SRem`, `SMembers` (returns a copy, F02b);
 * `resources/resource_management.go` — `GetQuota` (remembers EVERY quota a request id touched, in order, F02a),
-  `OnRequestDrop` (decrements all of them), `OnResponseFinish`;
+  `OnRequestDrop` (decrements all of them), `OnResponseFinish` (= `OnRequestDrop`, F02f);
 * `streams.go` / `stream/stream.go` — `executeReq`, `executeRes`, `OnError`, `OnRequestDrop` on an early
   response, the response-direction system end flows (`QuotaProcessorDec` of every concurrent quota of the filter,
   F04e) after a short-circuit;
@@ -36,11 +36,24 @@ deriving DecidableEq, Repr
 inductive Kind | conc | fixed
 deriving DecidableEq, Repr
 
+/-- A quota's own filter (what the correspondence generates): everything on the host, one method only, one path only,
+    or a required request header. -/
+inductive Flt | any | mGet | mPost | pathY | hdr
+deriving DecidableEq, Repr
+
+/-- What of a transaction the filters look at: method (POST or GET), path (`/y` or `/x`), the request header. -/
+structure Tx where
+  post : Bool
+  pathY : Bool
+  hdr : Bool
+deriving DecidableEq, Repr
+
 structure QCfg where
   kind : Kind
   max : Nat               -- max_request_count
   exp : Nat               -- request_expiration + timeDeltaForDeadRequestDecision, ns
   parent : Option Nat     -- index of the parent quota (internal_limits)
+  flt : Flt := .any       -- the quota's own filter
 deriving Repr
 
 structure Cfg where
@@ -59,6 +72,7 @@ def Cfg.isConc (cfg : Cfg) (q : Nat) : Bool :=
 def Cfg.max (cfg : Cfg) (q : Nat) : Nat := match cfg.quotas[q]? with | some c => c.max | none => 0
 def Cfg.exp (cfg : Cfg) (q : Nat) : Nat := match cfg.quotas[q]? with | some c => c.exp | none => 0
 def Cfg.parent (cfg : Cfg) (q : Nat) : Option Nat := (cfg.quotas[q]?).bind (·.parent)
+def Cfg.flt (cfg : Cfg) (q : Nat) : Flt := match cfg.quotas[q]? with | some c => c.flt | none => .any
 
 /-- `q, parent q, parent (parent q), …` (fuel = number of quotas + 1). -/
 def chainFuel (cfg : Cfg) : Nat → Nat → List Nat
@@ -88,6 +102,38 @@ def Cfg.sysStart (cfg : Cfg) : List Nat := cfg.sysOrder.filter (fun q => !cfg.re
 
 /-- The `QuotaProcessorDec` of the filter's response-direction system end flow: one per concurrent quota. -/
 def Cfg.sysDecs (cfg : Cfg) : List Nat := cfg.sysOrder.filter cfg.isConc
+
+/-- Effective filter of a quota: an internal limit without a filter of its own takes its parent's; one with a filter
+    keeps its own URL and adds the parent's methods and headers (`Filter.Extend`).
+    `(only path /y, allowed methods as "is POST" flags ([] = any), header required)`. -/
+def effFilter (cfg : Cfg) : Nat → Nat → Bool × List Bool × Bool
+  | 0, _ => (false, [], false)
+  | f + 1, q =>
+    let own : Bool × List Bool × Bool := match cfg.flt q with
+      | .mGet => (false, [false], false)
+      | .mPost => (false, [true], false)
+      | .pathY => (true, [], false)
+      | .hdr => (false, [], true)
+      | .any => (false, [], false)
+    match cfg.parent q with
+    | none => own
+    | some p =>
+      let up := effFilter cfg f p
+      if cfg.flt q == .any then up
+      else (own.1, own.2.1 ++ up.2.1.filter (fun m => !own.2.1.contains m), own.2.2 || up.2.2)
+
+/-- The system flows of quota `q` are selected for a request of this shape (URL, method, headers are checked). -/
+def Cfg.matchReq (cfg : Cfg) (q : Nat) (tx : Tx) : Bool :=
+  let f := effFilter cfg (cfg.quotas.length + 1) q
+  (!f.1 || tx.pathY) && (f.2.1.isEmpty || f.2.1.contains tx.post) && (!f.2.2 || tx.hdr)
+
+/-- … for a response of this shape (URL and method are checked; request headers are not there). -/
+def Cfg.matchResp (cfg : Cfg) (q : Nat) (tx : Tx) : Bool :=
+  let f := effFilter cfg (cfg.quotas.length + 1) q
+  (!f.1 || tx.pathY) && (f.2.1.isEmpty || f.2.1.contains tx.post)
+
+def Cfg.sysStartFor (cfg : Cfg) (tx : Tx) : List Nat := cfg.sysStart.filter (cfg.matchReq · tx)
+def Cfg.sysDecsFor (cfg : Cfg) (tx : Tx) : List Nat := cfg.sysDecs.filter (cfg.matchResp · tx)
 
 structure S where
   now : Nat
@@ -203,21 +249,22 @@ def sysDec (cfg : Cfg) : List Nat → S → Nat → S
     let s0 := micro cfg s (.rmSet r q)
     sysDec cfg rest (if cfg.isConc q then decChain cfg (cfg.chainOf q) s0 r else s0) r
 
-/-- `executeRes`: system end flows, then `OnResponseFinish`. -/
-def endFlows (cfg : Cfg) (s : S) (r : Nat) : S :=
-  micro cfg (sysDec cfg cfg.sysDecs s r) (.rmPop r)
+/-- `executeRes`: the system end flows whose filter matches, then `OnResponseFinish` = `OnRequestDrop` (every quota the
+    request touched is released, F02f). -/
+def endFlows (cfg : Cfg) (s : S) (r : Nat) (tx : Tx) : S :=
+  drop cfg (sysDec cfg (cfg.sysDecsFor tx) s r) r
 
 inductive Verdict | admitted | refused | early | none
 deriving DecidableEq, Repr
 
-/-- A request through `Stream.ExecuteFlow`. `post`: the flow answers it itself when `cfg.early`. -/
-def reqEvent (cfg : Cfg) (s : S) (r : Nat) (post : Bool) : S × Verdict :=
-  let p := userFlow cfg cfg.order (sysInc cfg cfg.sysStart s r) r
-  if !p.2 then (endFlows cfg (drop cfg p.1 r) r, .refused)          -- 429: OnRequestDrop, then response flows
-  else if cfg.early && post then (endFlows cfg (drop cfg p.1 r) r, .early)
+/-- A request through `Stream.ExecuteFlow`. A POST is answered by the flow itself when `cfg.early`. -/
+def reqEvent (cfg : Cfg) (s : S) (r : Nat) (tx : Tx) : S × Verdict :=
+  let p := userFlow cfg cfg.order (sysInc cfg (cfg.sysStartFor tx) s r) r
+  if !p.2 then (endFlows cfg (drop cfg p.1 r) r tx, .refused)       -- 429: OnRequestDrop, then response flows
+  else if cfg.early && tx.post then (endFlows cfg (drop cfg p.1 r) r tx, .early)
   else (p.1, .admitted)
 
-def respEvent (cfg : Cfg) (s : S) (r : Nat) : S := endFlows cfg s r
+def respEvent (cfg : Cfg) (s : S) (r : Nat) (tx : Tx) : S := endFlows cfg s r tx
 
 /-- `Stream.OnError`. -/
 def errEvent (cfg : Cfg) (s : S) (r : Nat) : S := drop cfg s r
@@ -255,15 +302,15 @@ def advance (cfg : Cfg) (s : S) (d : Nat) : S :=
 /-! ### Event histories -/
 
 inductive Event
-  | req (r : Nat) (post : Bool)
-  | resp (r : Nat)
+  | req (r : Nat) (tx : Tx)
+  | resp (r : Nat) (tx : Tx)
   | err (r : Nat)
   | adv (d : Nat)
 deriving DecidableEq, Repr
 
 def event (cfg : Cfg) (s : S) : Event → S × Verdict
-  | .req r post => reqEvent cfg s r post
-  | .resp r => (respEvent cfg s r, .none)
+  | .req r tx => reqEvent cfg s r tx
+  | .resp r tx => (respEvent cfg s r tx, .none)
   | .err r => (errEvent cfg s r, .none)
   | .adv d => (advance cfg s d, .none)
 
